@@ -6,10 +6,10 @@ CONSTANTS
   Bug = "none"
   MaxSteps = 10
   MaxEditRun = 3
-  Acts = {"Write", "Chmod", "Delete", "Mkfifo", "FileToDir", "DirToFile", "RmTree", "Symlink", "CheckOut", "SetSparse", "Snapshot"}
+  Acts = {"Write", "Chmod", "Delete", "Mkfifo", "FileToDir", "DirToFile", "DirToSymlink", "RmTree", "Symlink", "CheckOut", "SetSparse", "Snapshot"}
   EditPaths <- AllEditPaths
   Contents = {1, 2}
-  SymTargets = {"out", "f"}
+  SymTargets = {"out", "f", "out/x"}
   RootIgnore = {1, 2, 3, 4, 7}
   DirIgnore = {3, 5, 6}
   TreeIds = {1, 2, 3, 4, 5, 6, 7, 8, 9, 10, 11, 12, 13}
